@@ -101,6 +101,7 @@ SessionVerdict(x) ==
                 [] x.clause = "C17.entry" -> C17Entry(c[1], c[2])
                 [] x.clause = "C17.offset" -> C17Offset(n, c[1], c[2])
                 [] x.clause = "C17.frozen" -> C17Frozen(x.x)
+                [] x.clause = "C09.alt-stream" -> C09AltStream(c[1], x.x)
                 [] x.clause = "C16.history" -> C16History(c[1], x.x)
                 [] x.clause = "C16.eager-equal" -> C12Equiv(c[1], c[2])
                 [] x.clause = "C04.equiv" -> C04Equiv(n, c[1], c[2])
